@@ -224,6 +224,30 @@ func c05LibraryContexts(c C05Case, mask int, k, full interface{}, r *Rec) *Viola
 			return v
 		}
 	}
+	// compiled in undefined-variable mode while no name was registered, the names registered on the same
+	// config afterwards, the context built by the library from that config with every value supplied:
+	// everything is available, TryEval returns the value of the expression
+	if mask != 15 {
+		um := *u
+		um.RegMode = RegUndefined
+		cc, e, v := compile(&um)
+		if v != nil {
+			return v
+		}
+		all := map[string]interface{}{}
+		for _, n := range names {
+			eval.GetOrRegisterKey(cc, n)
+			all[n] = u.Var(n).Val.X
+		}
+		ctx, v := safeNewCtx("C05", cc, all)
+		if v != nil {
+			return v
+		}
+		if o := Safe(func() (eval.Value, error) { return e.TryEval(ctx) }); o.Panic != nil || o.Err != nil || !m.EqualVal(o.Val, full) {
+			return Violf("C05: a program compiled in undefined-variable mode before its variables were registered, tried over NewCtxFromVars(config after the registrations, every value) (%T), does not return the value of the expression\nconfig=%s src=%s\nTryEval=%v\nvalue=%s\nbinding=%v\nkey map=%v", ctx.VariableFetcher, maskName(mask), src, o, refString(full, nil), describeU(u), cc.VariableKeyMap)
+		}
+		r.Class("library-context:names-registered-after-compilation")
+	}
 	// no variable at all: every variable replaced by its value. Such a program needs no fetcher, and
 	// gets none - a nil *Ctx, an empty Ctx
 	if mask != 15 {
